@@ -100,8 +100,8 @@ def a3(run, mod, fn):
            f"event constructions are {shapes}", module=mod, node=fn, func=fn.name, construct="obj_to_events event shapes")
     # struct parent before the field loop; fields in dataclass order
     loops = [s for s in fn.body if isinstance(s, ast.For)]
-    ok = len(loops) == 1 and norm(loops[0].iter) == "obj_fields" and any(
-        isinstance(s, ast.Assign) and norm(s) == canon("obj_fields = fields(obj)") for s in ast.walk(fn))
+    fvars = [norm(s.targets[0]) for s in ast.walk(fn) if isinstance(s, ast.Assign) and norm(s.value) == canon("fields(obj)")]
+    ok = len(loops) == 1 and len(fvars) == 1 and norm(loops[0].iter) == fvars[0]
     run.ob("A3", ok, "children are emitted in declaration order", "field iteration of obj_to_events changed", module=mod, node=fn,
            func=fn.name, construct="obj_to_events field order")
     if loops:
